@@ -528,8 +528,8 @@ impl crate::save::upload::Table for Profile {
             present,
             future,
             edge,
-            policy,
-            regret
+            regret,
+            policy
         )
         FROM STDIN BINARY
         "
